@@ -1,8 +1,13 @@
 import TracklibVerif.Lemmas.ExprRpn
 import TracklibVerif.Lemmas.ExprExact
+import TracklibVerif.Lemmas.ExprErr
+import TracklibVerif.Lemmas.ExprPre9
+import TracklibVerif.Lemmas.ExprExt
+import TracklibVerif.Lemmas.ExprAgg
 /-! # C02 — algebraic feature expressions evaluate to ordinary arithmetic on the features
 
-Property theorems only (helpers: `Lemmas/Rpn.lean`, `Lemmas/Expr.lean`, `Lemmas/ExprRpn.lean`).
+Property theorems only (helpers: `Lemmas/Rpn.lean`, `Lemmas/RpnChars.lean`, `Lemmas/Expr.lean`, `Lemmas/ExprRpn.lean`,
+`Lemmas/ExprPointwise.lean`, `Lemmas/ExprErr.lean` (error direction), `Lemmas/ExprPre*.lean` (the rewriting chain)).
 Models: `Model/Rpn.lean` (token-level `utils.makeRPN`) and `Model/Expr.lean` (the rewriting chain,
 character-level `makeRPN`, `__evaluateRPN` / `__applyOperation`, the operator classes, the purge of
 `Track.operate`). The scalar type `α` is abstract (`Scalar α`): the statements hold for the `Float`
@@ -10,8 +15,9 @@ instance the driver runs as well as for exact arithmetic; no law of arithmetic i
 
 `denoteM tr e` is the *tree semantics*: structural recursion on the expression tree with the operator
 definitions of core/operators.py at each node (pointwise `+ - * / ^ < >` with the NaN-on-zero rule of
-`Divider`, number∘feature and feature∘number forms, `I D D2 ABS SQRT`, `SUM AVG MIN MAX MEDIAN MAD STD`);
-it has no stack, no temporaries and no parser. -/
+`Divider`, number∘feature and feature∘number forms, `I D D2 ABS SQRT LOG DIODE SIGN EXP COS SIN TAN`,
+`SUM AVG VAR STD MSE RMSE MAD MIN MAX MEDIAN ARGMIN ARGMAX`); it has no stack, no temporaries and no parser.
+The theorems cover both directions (value: T1–T5, error: T6) and start from the string the user types (T7). -/
 namespace TV.C02
 open TV.Expr TV.Rpn
 
@@ -98,7 +104,8 @@ theorem operate_show_value (tr : Tr α) (e : Ex) (v : Val α) (fuel : Nat)
 
 /-- **T4 (operator objects agree with the evaluator)**: `Track.operate(Operator.X, …)` with a new
 output name returns exactly the tree semantics of the corresponding one-node expression
-(`a∘b`, `a∘number`, `number∘a`, `f{a}`); together with T3a this is "applying the operator objects
+(`a∘b`, `a∘number`, `number∘a`, `f{a}` for each of the 12 void functions — `LOG` with its own way of storing
+the result included — and the 12 aggregates); together with T3a this is "applying the operator objects
 directly gives the same values". -/
 theorem operator_objects_agree (tr : Tr α) (o : Char) (f a b lit out : Str) (ca cb : List α) (s : α)
     (ga : getAF tr a = .ok ca) (gb : getAF tr b = .ok cb) (hs : litOf lit = some s)
@@ -177,6 +184,176 @@ theorem operate_string_pointwise (L : Laws α) (tr : Tr α) (e : Ex) (v : Val α
     ∃ vec, denote tr e = .ok vec ∧ operateRewritten tr (stmtString outputName e) false = (.ok (some vec), tr) :=
   ⟨v.toVec tr.n, tree_semantics_pointwise L tr hs hn e v hd, operate_string_value tr e v hw hp hq hn hnt hl hd⟩
 
+/-- **T6 (error propagation, stack machine)**: when the tree semantics of a well-formed tree is an *error*
+(division of a feature by the literal 0, `0 ** negative`, a complex or overflowing power, `SQRT` of a negative,
+`EXP` overflow, a function of a number-valued sub-expression, …) — every variable being bound on the track,
+every call applying one of the 24 known functions to something other than a bare number token — the stack
+machine raises the *same* error, having changed the track only by appended temporaries `#k…`. -/
+theorem evalRPN_postfix_error (e : Ex) (tr : Tr α) (st : List (Item α)) (k : Nat) (rest : List Str) (err : Err)
+    (hw : WFx e) (hc : CallsOK e) (hb : Bound tr e) (hn : tr.n ≠ 0) (hf : Fresh tr k) (hl : NoLitNames tr)
+    (hd : denoteM tr e = .error err) :
+    ∃ tr', evalRPN tr (Expr.post e ++ rest) st k = (.error err, tr') ∧ Step tr tr' k (k + nops e) :=
+  evalRPN_post_err e tr st k rest err hw hc hb hn hf hl hd
+
+/-- **T6' (error propagation, `operate`)**: under the same hypotheses `operate` on the postfix form of
+`lhs = e` (with or without a user-visible left-hand side) raises that error and — the temporaries being purged
+in the `finally` clause (fix 761b645) — leaves the track *exactly* as it was: nothing is stored under `lhs`. -/
+theorem operate_error (tr : Tr α) (lhs : Str) (e : Ex) (void : Bool) (err : Err)
+    (hop : isOperatorTok lhs = none) (hw : WFx e) (hc : CallsOK e) (hb : Bound tr e)
+    (hn : tr.n ≠ 0) (hnt : NoTemps tr) (hl : NoLitNames tr) (hd : denoteM tr e = .error err) :
+    operateTokens tr (lhs :: (Expr.post e ++ [['=']])) void = (.error err, tr) :=
+  operateTokens_error tr lhs e void err hop hw hc hb hn hnt hl hd
+
+/-- **T6'' (error propagation from the rewritten string)**: the same for the string `lhs=e` as it reaches
+`makeRPN` (character-level parser, `__double_prime`, stack machine, purge). -/
+theorem operate_string_error (tr : Tr α) (lhs : Str) (e : Ex) (void : Bool) (err : Err)
+    (hw : WFx e) (hp : PlainNames e) (hq : NoQuote e) (hla : AtomOK (String.ofList lhs)) (hg : GoodTok lhs)
+    (hop : isOperatorTok lhs = none) (hc : CallsOK e) (hb : Bound tr e)
+    (hn : tr.n ≠ 0) (hnt : NoTemps tr) (hl : NoLitNames tr) (hd : denoteM tr e = .error err) :
+    operateRewritten tr (stmtString lhs e) void = (.error err, tr) := by
+  rw [operate_string_tokens tr lhs e void hw hp hq hla hg]
+  exact operateTokens_error tr lhs e void err hop hw hc hb hn hnt hl hd
+
+/-! ## from the string the user types (the rewriting chain of `Track.__evaluate`)
+
+`Sx` is the surface syntax (numbers, names, binary operators, calls `f{…}`, unary minus `(-…)`, explicit
+parentheses); `src e` its printed string (minimal parentheses); `desugar e : Ex` what is computed (unary
+minus is `0 - e`); `SrcOK e`: operators are operator characters of `makeRPN`'s table other than `=`, names /
+numbers / function names are non-empty, free of parentheses, braces, operator characters and white space, and
+no name or number ends with `.` (`2.*a` would contain the pattern `.*`). -/
+
+/-- **T7a (rewriting chain, `lhs=e`)**: `preprocess` — removal of spaces, `**`→`^`, `.*`→`!`, `{`→`@(`, `}`→`)`,
+`>>`/`<<`, the reflexive forms, the unary-sign rewrites, `f(`→`f@(` for the 51 names of the two operator tables —
+maps the source string of the statement *exactly* to the printed parser tree of the desugared statement
+(a call is `f@(…)`, a unary minus `(0-…)`), with `void = True`. -/
+theorem preprocess_source_assign (lhs : Str) (e : Sx) (hl : NameOK lhs) (h : SrcOK e) :
+    preprocess (lhs ++ '=' :: src e) = .ok (flat (shw pyLvl 9 (.bin '=' (.atom (String.ofList lhs)) (toE' e))), true) :=
+  preprocess_assign lhs e hl h
+
+/-- **T7b (rewriting chain, no `=`)**: the same with the prefix `#output = ` (with its two spaces) and `void = False`. -/
+theorem preprocess_source_value (e : Sx) (h : SrcOK e) :
+    preprocess (src e) = .ok ("#output = ".toList ++ flat (shw pyLvl 9 (toE' e)), false) :=
+  preprocess_value e h
+
+/-- **T7c (tokens of the rewritten string = postfix form of the tree)**: `makeRPN` on what `preprocess` returns for
+the value form — the spaces of the prefix included — is `#output`, the postfix form of the desugared tree, `=`. -/
+theorem tokens_of_preprocessed_source (e : Sx) (h : SrcOK e) :
+    (preprocess (src e)).bind (fun p => makeRPN p.1) = .ok (outputName :: (Expr.post (desugar e) ++ [['=']])) := by
+  rw [preprocess_value e h]
+  show makeRPN ("#output = ".toList ++ flat (shw pyLvl 9 (toE' e))) = _
+  rw [makeRPN_output_spaces (toE' e) (wf_toE' e h) (atomsOK_toE' e h) (by rw [← tgt_eq]; exact tgt_no_eq e h), post_toE']
+
+/-- **T7 (source string → tokens, `lhs=e`)**: `Track.operate` on the string the user types does what it does on
+the postfix token list `lhs, postfix(desugar e), =` — so T3b–T3d and T6' apply to source strings. -/
+theorem operate_source_statement (tr : Tr α) (lhs : Str) (e : Sx)
+    (hl : NameOK lhs) (hg : GoodTok lhs) (h : SrcOK e) (hq : NoQuote (desugar e)) :
+    operate tr (lhs ++ '=' :: src e) = operateTokens tr (lhs :: (Expr.post (desugar e) ++ [['=']])) true :=
+  operate_source_tokens tr lhs e hl hg h hq
+
+/-- **C02, end to end from the source string, no `=`**: `Track.operate(src e)` — the whole of `__evaluate`
+(rewriting chain, `makeRPN` on characters, `__double_prime`, stack machine, fetch of `#output`) and the purge —
+returns the tree semantics of the expression at every observation and leaves the track exactly as it was. -/
+theorem operate_source_value (tr : Tr α) (e : Sx) (v : Val α) (h : SrcOK e) (hq : NoQuote (desugar e))
+    (hw : WFx (desugar e)) (hn : tr.n ≠ 0) (hnt : NoTemps tr) (hl : NoLitNames tr)
+    (hd : denoteM tr (desugar e) = .ok v) :
+    operate tr (src e) = (.ok (some (v.toVec tr.n)), tr) :=
+  Expr.operate_source_value tr e v h hq hw hn hnt hl hd
+
+/-- … and it is the *pointwise* value (ordinary arithmetic observation by observation) under the `Laws` of T5. -/
+theorem operate_source_pointwise (L : Laws α) (tr : Tr α) (e : Sx) (v : Val α) (h : SrcOK e) (hq : NoQuote (desugar e))
+    (hw : WFx (desugar e)) (hs : WellSized tr) (hn : tr.n ≠ 0) (hnt : NoTemps tr) (hl : NoLitNames tr)
+    (hd : denoteM tr (desugar e) = .ok v) :
+    ∃ vec, denote tr (desugar e) = .ok vec ∧ operate tr (src e) = (.ok (some vec), tr) :=
+  ⟨v.toVec tr.n, tree_semantics_pointwise L tr hs hn (desugar e) v hd, Expr.operate_source_value tr e v h hq hw hn hnt hl hd⟩
+
+/-- **from the source string, `lhs=e` with a new name**: nothing is returned, the value is stored under `lhs`,
+nothing else changes. -/
+theorem operate_source_assign_new (tr : Tr α) (lhs : Str) (e : Sx) (v : Val α)
+    (hl : NameOK lhs) (hg : GoodTok lhs) (h : SrcOK e) (hq : NoQuote (desugar e))
+    (hop : isOperatorTok lhs = none) (hr : isReserved lhs = false) (ht : isTemp lhs = false)
+    (hlk : lookup lhs tr.feats = none)
+    (hw : WFx (desugar e)) (hn : tr.n ≠ 0) (hnt : NoTemps tr) (hlit : NoLitNames tr)
+    (hd : denoteM tr (desugar e) = .ok v) :
+    operate tr (lhs ++ '=' :: src e) = (.ok none, ext tr [(lhs, v.toVec tr.n)]) :=
+  Expr.operate_source_assign_new tr lhs e v hl hg h hq hop hr ht hlk hw hn hnt hlit hd
+
+/-- **from the source string, error propagation**: when the tree semantics is an error (hypotheses of T6),
+`Track.operate("lhs=…")` raises that error and leaves the track exactly as it was. -/
+theorem operate_source_error (tr : Tr α) (lhs : Str) (e : Sx) (err : Err)
+    (hl : NameOK lhs) (hg : GoodTok lhs) (h : SrcOK e) (hq : NoQuote (desugar e))
+    (hop : isOperatorTok lhs = none) (hw : WFx (desugar e)) (hc : CallsOK (desugar e)) (hb : Bound tr (desugar e))
+    (hn : tr.n ≠ 0) (hnt : NoTemps tr) (hlit : NoLitNames tr) (hd : denoteM tr (desugar e) = .error err) :
+    operate tr (lhs ++ '=' :: src e) = (.error err, tr) := by
+  rw [operate_source_tokens tr lhs e hl hg h hq]
+  exact operateTokens_error tr lhs (desugar e) true err hop hw hc hb hn hnt hlit hd
+
+/-- … and for the value form (no `=`). -/
+theorem operate_source_value_error (tr : Tr α) (e : Sx) (err : Err) (h : SrcOK e) (hq : NoQuote (desugar e))
+    (hw : WFx (desugar e)) (hc : CallsOK (desugar e)) (hb : Bound tr (desugar e))
+    (hn : tr.n ≠ 0) (hnt : NoTemps tr) (hlit : NoLitNames tr) (hd : denoteM tr (desugar e) = .error err) :
+    operate tr (src e) = (.error err, tr) := by
+  rw [operate_source_value_tokens tr e h hq]
+  exact operateTokens_error tr outputName (desugar e) false err (by decide) hw hc hb hn hnt hlit hd
+
+/-- **spaces anywhere**: `operate` on a string is `operate` on the string without its blanks (the first
+`replace(" ", "")`), so every statement above holds for any spacing of the source. -/
+theorem operate_source_spaces (tr : Tr α) (s : Str) : operate tr s = operate tr (s.filter (fun d => d != ' ')) :=
+  operate_spaces tr s
+
+/-- **`**` written for `^`** (`Sy` = `Sx` with a `pw` node printed `**`; `lower` maps it to `^`). -/
+theorem operate_source_starstar (tr : Tr α) (lhs : Str) (e : Sy)
+    (hl : NameOK lhs) (hg : GoodTok lhs) (h : SrcOK (lower e)) (hq : NoQuote (desugar (lower e))) :
+    operate tr (lhs ++ '=' :: srcY e) = operateTokens tr (lhs :: (Expr.post (desugar (lower e)) ++ [['=']])) true :=
+  operate_source_tokens_pow tr lhs e hl hg h hq
+
+/-- **reflexive forms** `lhs op= e` for `op` in `+ - * / ^ % !`: the statement `lhs = lhs op (e)`. -/
+theorem operate_source_reflexive (tr : Tr α) (lhs : Str) (op : Char) (e : Sx) (hop : op ∈ rops)
+    (hl : NameOK lhs) (hd : lhs.getLast? ≠ some '.') (hg : GoodTok lhs) (h : SrcOK e) (hq : NoQuote (desugar e)) :
+    operate tr (lhs ++ op :: '=' :: src e)
+      = operateTokens tr (lhs :: (Expr.post (.bin op (.var lhs) (desugar e)) ++ [['=']])) true :=
+  operate_source_tokens_reflex tr lhs op e hop hl hd hg h hq
+
+/-- **bare unary minus** at the start of the string, after `=`, `(` or `{` (`-a+b`, `c=-a*b`, `ABS{-a}`, `(-a+b)`):
+dropping the `0` of one `0-` of a printed source string at such a position does not change what `operate` does
+(one bare minus per application). -/
+theorem operate_source_bare_minus (tr : Tr α) (pre : Str) (hp : PreOK pre) (e : Sx) (h : SrcOK e) (P Q : Str)
+    (hS : pre ++ src e = P ++ '0' :: '-' :: Q)
+    (hP : P = [] ∨ ∃ P' c, P = P' ++ [c] ∧ (c = '=' ∨ c = '(' ∨ c = '{')) :
+    operate tr (P ++ '-' :: Q) = operate tr (pre ++ src e) :=
+  operate_bare_minus tr pre hp e h P Q hS hP
+
+/-- **front end `Track[expr]`**: when the (stripped) string contains one of the characters `+ - / * ^ > < ( ) = '`
+that `Track.__getitem__` looks for, `Track[expr]` is `Track.operate(expr)` — every statement above about `operate`
+then holds for `Track[…]`. (A string with none of them — a function call alone such as `SUM{a}`, a number alone — is
+taken for a feature name: see the examples below and the finding class `getitem-expression-taken-for-a-name`.) -/
+theorem getitem_is_operate (tr : Tr α) (s : Str) (hs : strip s = s)
+    (h : s.any (fun c => exprChars.contains c) = true) : getitemStr tr s = operate tr s := by
+  simp only [getitemStr, hs, h, if_true]
+
+/-- **externals** (`Track.operate(expression, {'name': value})`): the machine that substitutes the values of the
+dictionary for their names is, with an empty dictionary, the machine of all the statements above. (With a non-empty
+dictionary an external is a number given by name; that reading is tied by the correspondence and judged by the
+oracle, stream `externals`, not proved.) -/
+theorem operate_no_externals (tr : Tr α) (expr : Str) : operateX [] tr expr = operate tr expr :=
+  operateX_nil tr expr
+
+/-- **T8 (`MIN` / `MAX` as coded vs the documented `min(x)` / `max(x)`)**: under irreflexivity and transitivity of
+the comparison, as soon as one value of the vector is below the sentinel `1e300` (above `-1e300`) the result of
+`Min` (`Max`) is the minimum (maximum) of the vector: it is one of its values and no value is below (above) it —
+NaN, which compares false with everything, is skipped. When every value is beyond the sentinel the result is the
+sentinel (`aggregate_sentinel`; finding class `extremum-beyond-sentinel`). -/
+theorem aggregate_min_max (L : OrdLaws α) (c : List α) (w : α) (hw : w ∈ c) :
+    (Scalar.lt w Scalar.big = true → minL c ∈ c ∧ ∀ v ∈ c, Scalar.lt v (minL c) = false) ∧
+    (Scalar.lt (Scalar.neg Scalar.big) w = true → maxL c ∈ c ∧ ∀ v ∈ c, Scalar.lt (maxL c) v = false) :=
+  ⟨minL_is_minimum L c w hw, maxL_is_maximum L c w hw⟩
+
+/-- … and in general: nothing is below (above) the result, which is a value of the vector strictly inside the
+sentinel or the sentinel itself. -/
+theorem aggregate_sentinel (L : OrdLaws α) (c : List α) :
+    ((∀ v ∈ c, Scalar.lt v (minL c) = false) ∧ (minL c = Scalar.big ∨ (minL c ∈ c ∧ Scalar.lt (minL c) Scalar.big = true))) ∧
+    ((∀ v ∈ c, Scalar.lt (maxL c) v = false) ∧ (maxL c = Scalar.neg Scalar.big ∨ (maxL c ∈ c ∧ Scalar.lt (Scalar.neg Scalar.big) (maxL c) = true))) :=
+  ⟨minL_spec L c, maxL_spec L c⟩
+
 /-! ## non-vacuity -/
 
 /-- the laws are those of exact arithmetic: rationals with a NaN element satisfy them -/
@@ -211,9 +388,9 @@ example : NoLitNames trEx := by
   intro s hs
   simp only [trEx, lookup]
   split
-  · rename_i h; subst h; simp [parseLit] at hs
+  · rename_i h; subst h; exact absurd hs (by decide)
   · split
-    · rename_i h; subst h; simp [parseLit] at hs
+    · rename_i h; subst h; exact absurd hs (by decide)
     · rfl
 example : denoteM trEx eEx = .ok (.vec [3, -3, 15]) := by rfl
 /-- the parser on the printed statement gives the postfix form the evaluator runs -/
@@ -242,5 +419,65 @@ example : (operate trEx "a>(b+1)".toList).1.toOption = some (some [0, 0, 0])
 /-- left associativity and precedence with the real table: `a-b-c*d` -/
 example : rpn pyLvl 9 20 (shw pyLvl 9 (.bin '-' (.bin '-' (.atom "a") (.atom "b")) (.bin '*' (.atom "c") (.atom "d"))))
     = ["a", "b", "-", "c", "d", "*", "-"] := by decide
+
+/-! ### the source-string theorems (T7) and the error direction (T6) are not vacuous -/
+
+theorem trEx_noTemps : NoTemps trEx := by intro p hp; simp [trEx] at hp; rcases hp with rfl | rfl <;> rfl
+theorem trEx_noLit : NoLitNames trEx := by
+  intro s hs
+  simp only [trEx, lookup]
+  split
+  · rename_i h; subst h; exact absurd hs (by decide)
+  · split
+    · rename_i h; subst h; exact absurd hs (by decide)
+    · rfl
+
+/-- `(a+b)*2-SUM{(-a)}` as the user types it -/
+def sEx : Sx :=
+  .bin '-' (.bin '*' (.bin '+' (.var ['a']) (.var ['b'])) (.num ['2'])) (.call ['S', 'U', 'M'] (.neg (.var ['a'])))
+theorem sEx_src : src sEx = "(a+b)*2-SUM{(-a)}".toList := by decide +kernel
+theorem sEx_ok : SrcOK sEx := by simp only [sEx, SrcOK, NameOK]; decide
+theorem sEx_noQuote : NoQuote (desugar sEx) := by simp only [sEx, desugar, NoQuote, GoodTok]; decide
+theorem sEx_wf : WFx (desugar sEx) := by simp only [sEx, desugar, WFx]; decide
+example : (preprocess "(a+b)*2-SUM{(-a)}".toList).toOption = some ("#output = (a+b)*2-SUM@((0-a))".toList, false) := by
+  decide +kernel
+/-- every hypothesis of `operate_source_value` holds on a concrete string and track -/
+example : operate trEx "(a+b)*2-SUM{(-a)}".toList = (.ok (some [9, 3, 21]), trEx) := by
+  have h := operate_source_value trEx sEx (.vec [9, 3, 21]) sEx_ok sEx_noQuote sEx_wf (by decide) trEx_noTemps trEx_noLit (by rfl)
+  rw [sEx_src] at h
+  exact h
+
+/-- `c=a/0`: the tree semantics is ZeroDivisionError (scalar division by the literal 0), so is `operate`, and
+nothing is stored -/
+def dEx : Sx := .bin '/' (.var ['a']) (.num ['0'])
+example : denoteM trEx (desugar dEx) = .error "err:zerodiv" := by rfl
+example : operate trEx "c=a/0".toList = (.error "err:zerodiv", trEx) := by
+  have h := operate_source_error trEx ['c'] dEx "err:zerodiv" ⟨by decide, by decide⟩ ⟨'c', rfl, by decide⟩
+    (by simp only [dEx, SrcOK, NameOK]; decide) (by simp only [dEx, desugar, NoQuote, GoodTok]; decide) (by decide)
+    (by simp only [dEx, desugar, WFx]; decide) (by simp only [dEx, desugar, CallsOK]; trivial)
+    (by simp only [dEx, desugar, Bound]; exact ⟨⟨_, rfl⟩, trivial⟩) (by decide) trEx_noTemps trEx_noLit (by rfl)
+  have hs : (['c'] ++ '=' :: src dEx) = "c=a/0".toList := by decide +kernel
+  rw [hs] at h
+  exact h
+/-- the new functions are part of the tree semantics: `DIODE{a}+ARGMAX{b}` on the toy scalar -/
+example : denoteM trEx (.bin '+' (.call ['D', 'I', 'O', 'D', 'E'] (.var ['a'])) (.call ['A', 'R', 'G', 'M', 'A', 'X'] (.var ['b'])))
+    = .ok (.vec [3, 2, 6]) := by rfl
+
+/-- the order laws of T8 hold for the toy scalar; the sentinel is visible: `MIN{[10^300+5]}` is `10^300` -/
+example : OrdLaws Int := ⟨fun a => by simp [Scalar.lt], fun a b c h1 h2 => by
+  simp only [Scalar.lt, decide_eq_true_eq] at h1 h2 ⊢; omega⟩
+example : minL ([10 ^ 300 + 5] : List Int) = 10 ^ 300 ∧ minL ([3, -7, 4] : List Int) = -7 ∧ maxL ([3, -7, 4] : List Int) = 4 := by
+  decide +kernel
+
+/-- `operate("b*factor+k", {'factor': 2, 'k': 10})` on the toy scalar -/
+example : (operateX [(['f', 'a', 'c', 't', 'o', 'r'], 2), (['k'], 10)] trEx "b*factor+k".toList).1.toOption = some (some [14, 14, 20]) := by
+  decide +kernel
+
+/-- `Track["(a+b)*2"]` is `operate("(a+b)*2")`; but `Track["SUM{a}"]` looks up a feature called `SUM{a}` while
+`operate("SUM{a}")` evaluates it (the braces are not among the characters `__getitem__` tests) -/
+example : getitemStr trEx "(a+b)*2".toList = operate trEx "(a+b)*2".toList :=
+  getitem_is_operate trEx _ (by decide +kernel) (by decide +kernel)
+example : (getitemStr trEx "SUM{a}".toList).1.toOption = none ∧ (operate trEx "SUM{a}".toList).1.toOption = some (some [3, 3, 3]) := by
+  decide +kernel
 
 end TV.C02
